@@ -76,3 +76,16 @@ func init() {
 	externals[modPath+"/core.LogInternalError"] = func(fr *frame, a []value) value { return nil }
 	externals[modPath+"/util/dbg.PrintStack"] = func(fr *frame, a []value) value { return nil }
 }
+
+// envClock: time.Now is a deterministic clock that advances one second per call (per path).
+var envClock int64
+
+func init() {
+	externals["time.runtimeNow"] = func(fr *frame, a []value) value {
+		old := envClock
+		journalFn(func() { envClock = old })
+		envClock++
+		return tuple{int64(1700000000) + envClock, int32(0), int64(1000000000) * envClock}
+	}
+	externals["time.now"] = externals["time.runtimeNow"]
+}
